@@ -20,7 +20,7 @@ RULE = (
     "{neighbors(filterfunc), find_links(filterfunc), bft/ibft, dft_recursive/idft_recursive, "
     "dft_iterative/idft_iterative (ff_via, ff_result), bfs, dfs_recursive, dfs_iterative, basic_render(rfunc, sort), "
     "render_to_plantuml_src(user_render_func), make_pyvis_net and pyvis_render_customizable(rvfunc, refunc), "
-    "nrpickler.dumps}, also with RE-ENTRANT callbacks (the callback itself renders / queries an overlapping universe) and on graphs containing a link that has lost an end.  Fault enumeration: a clean run with counting wrappers measures N_c invocations of each "
+    "nrpickler.dumps}, optionally a universe whose first 260 members are isolated fillers (then the first, middle and last fault point of each callback), also with RE-ENTRANT callbacks (the callback itself renders / queries an overlapping universe) and on graphs containing a link that has lost an end.  Fault enumeration: a clean run with counting wrappers measures N_c invocations of each "
     "callback; then for every callback and every k in 1..N_c the call is repeated with a wrapper raising a private "
     "exception at the k-th invocation.  Oracle: the deep snapshot (attribute-name set and canonicalised values of "
     "every vertex, link, universe and law set via vars()) after the clean run and after every faulted run equals "
